@@ -121,23 +121,72 @@ func (c *Ctx) execSwitch() (*ast.SwitchStmt, []execArm) {
 	return sw, arms
 }
 
+// operandObjects: the variables of the interpreter switch that hold the current instruction's operand
+// (assigned from the Term-typed field of the instruction struct in the switch's init statement), plus the
+// selector expression itself.
+func (c *Ctx) operandObjects() map[types.Object]bool {
+	out := map[types.Object]bool{}
+	sw, _ := c.execSwitch()
+	if sw == nil {
+		return out
+	}
+	info := c.EngPkg.TypesInfo
+	isOperandSel := func(e ast.Expr) bool {
+		sel, ok := e.(*ast.SelectorExpr)
+		if !ok {
+			return false
+		}
+		s := info.Selections[sel]
+		if s == nil || s.Kind() != types.FieldVal {
+			return false
+		}
+		st, ok := deref(s.Recv()).Underlying().(*types.Struct)
+		return ok && st.NumFields() == 2 && st.Field(1) == s.Obj()
+	}
+	if as, ok := sw.Init.(*ast.AssignStmt); ok && len(as.Lhs) == len(as.Rhs) {
+		for i, rhs := range as.Rhs {
+			if isOperandSel(rhs) {
+				if id, ok := as.Lhs[i].(*ast.Ident); ok {
+					if o := info.Defs[id]; o != nil {
+						out[o] = true
+					} else if o := info.Uses[id]; o != nil {
+						out[o] = true
+					}
+				}
+			}
+		}
+	}
+	return out
+}
+
 // armAssertedType: the type the arm asserts the instruction operand to (nil if it uses it as a Term).
 func (c *Ctx) armAssertedType(a execArm) types.Type {
 	var t types.Type
-	term := c.engType("Term")
+	operands := c.operandObjects()
+	info := c.EngPkg.TypesInfo
 	ast.Inspect(a.clause, func(n ast.Node) bool {
 		ta, ok := n.(*ast.TypeAssertExpr)
 		if !ok || ta.Type == nil {
 			return true
 		}
-		xt := c.EngPkg.TypesInfo.Types[ta.X].Type
-		if xt == nil || term == nil || !types.Identical(xt, term) {
+		switch x := ta.X.(type) {
+		case *ast.Ident:
+			if !operands[info.Uses[x]] {
+				return true // an assertion on some other term (e.g. the argument being matched)
+			}
+		case *ast.SelectorExpr:
+			s := info.Selections[x]
+			if s == nil {
+				return true
+			}
+			st, ok := deref(s.Recv()).Underlying().(*types.Struct)
+			if !ok || st.NumFields() != 2 || st.Field(1) != s.Obj() {
+				return true
+			}
+		default:
 			return true
 		}
-		if _, ok := ta.X.(*ast.Ident); !ok {
-			return true
-		}
-		t = c.EngPkg.TypesInfo.Types[ta.Type].Type
+		t = info.Types[ta.Type].Type
 		return true
 	})
 	return t
